@@ -174,6 +174,8 @@ CANARIES = [
     ('delete-bucket-marks-only-itself', 'C05', 'src/bucket.rs', '        b.mark_deleted();\n', '        b.deleted = true;\n'),
     ('mark-deleted-stops-at-the-children', 'C05', 'src/bucket.rs', '            child.borrow_mut().mark_deleted();', '            child.borrow_mut().deleted = true;'),
     ('mark-deleted-forgets-itself', 'C05', 'src/bucket.rs', '    fn mark_deleted(&mut self) {\n        self.deleted = true;\n', '    fn mark_deleted(&mut self) {\n'),
+    # the old free-list run that joins the pending pages lies below the high-water mark
+    ('commit-frees-one-page-too-many', 'C05', 'src/tx.rs', '                freelist.free(self.meta.freelist_page, self.num_freelist_pages);', '                freelist.free(self.meta.freelist_page, self.num_freelist_pages + 1);'),
 ]
 
 
